@@ -99,6 +99,18 @@ where
     /// # Panics
     ///
     /// Panics if `Key` cannot be converted to `u32`
+    /// verification hook: jump to a generation as that many clears would,
+    /// without performing them one by one (the table must be empty)
+    #[cfg(feature = "verif")]
+    pub fn verif_set_generation(&mut self, generation: u32) {
+        assert!(self.length == 0);
+        self.positions = vec![HashCell::default(); MAX_ELEMENTS];
+        self.current_timestamp = Wrapping(generation);
+        if generation == u32::MAX {
+            self.positions.iter_mut().for_each(|cell| cell.time = 0);
+        }
+    }
+
     #[inline]
     pub fn get_mut(&mut self, key: Key) -> &mut Value {
         let key_as_u32: u32 = key
